@@ -44,6 +44,9 @@ func selftest(tier string) (killed, total int, notes []string) {
 			notes = append(notes, "bad spec "+spec)
 			return
 		}
+		if cs.mode&4 != 0 {
+			return // differential-only texts: the generator has no denotation for them
+		}
 		t := build(cs.ctx, cs.toks, cs.seps, cs.lead, cs.trail)
 		key := fmt.Sprintf("%d|%s|%s", cs.c.base, cs.c.ff, t.src)
 		if seen[key] {
